@@ -468,6 +468,24 @@ class Logs:
         self.blog = []   # (t, node, class, customer id, n passed, true population, returned p)
 
 
+def make_discipline(name):
+    """Built-in discipline by name, or a custom one: 'LINGER:<k>' serves the earliest arrival that has been at the node for at
+    least k time units and nobody (returns None) when there is none - the 'lingering customers' use of custom disciplines that
+    the repository's tests and change log describe; 'SECOND' picks the second waiting customer when there are several."""
+    if name.startswith('LINGER:'):
+        k = float(name.split(':')[1])
+
+        def linger(individuals, t):
+            ready = [ind for ind in individuals if (t - ind.arrival_date) >= k]
+            return ready[0] if ready else None
+        return linger
+    if name == 'SECOND':
+        def second(individuals, t):
+            return individuals[1] if len(individuals) > 1 else individuals[0]
+        return second
+    return getattr(ciw.disciplines, name)
+
+
 def build(spec, logs=None, fault=None):
     """Returns (network, simulation kwargs). `fault` = (stream kind, call index, bad value, counter) for C10."""
     n = spec['n']; classes = spec['classes']
@@ -496,7 +514,7 @@ def build(spec, logs=None, fault=None):
               number_of_servers=[make_servers(nd['servers']) for nd in spec['nodes']],
               queue_capacities=[INF if nd['qcap'] == 'inf' else nd['qcap'] for nd in spec['nodes']],
               routing={c: make_router(spec['routing'][c], n, rlog) for c in classes},
-              service_disciplines=[getattr(ciw.disciplines, nd['discipline']) for nd in spec['nodes']],
+              service_disciplines=[make_discipline(nd['discipline']) for nd in spec['nodes']],
               ps_thresholds=[nd['ps_threshold'] for nd in spec['nodes']])
     if any(nd.get('spf') for nd in spec['nodes']):
         kw['server_priority_functions'] = [SPF[nd.get('spf')] for nd in spec['nodes']]
